@@ -279,3 +279,66 @@ def r10_model_values(a, tier):
             rep.fail(fn.qualname, f'binding:{cls}:{len(pre)}', f'{cls}._parse (keys bound before: {list(pre)}) with an expression of value V stores {got!r} and returns {ret!r} (raised {raised}); required stores '
                      f'{want_stores!r} and return {want_ret!r}', fn.loc)
     return rep
+
+
+def replay_contracts(a, rule_id):
+    """memo / seed replay of rule_call and recursive_call (used by C04 and C03)"""
+    rep = RuleReport(
+        rule_id,
+        'replay: rule_call() returns a memoized result and raises a memoized exception (also the left-recursion guard) WITHOUT opening a '
+        'frame or evaluating the body; recursive_call() returns / raises what _results holds for the key before anything else (the '
+        'recursive invocation inside the seed-growing loop ends there), and otherwise stores the seed before the first evaluation',
+        floor=5,
+    )
+    RR = 'tatsu.contexts.infos.RuleResult'
+    a.p.cls(RR)
+
+    def engine(memo_value, results):
+        states = Recorder('states')
+        evaluated: list = []
+        me = Stub(ENGINE, states=states, pos=5, _results=results, memo=Hook(lambda key: memo_value), set_left_recursion_guard=Hook(lambda key: None),
+                  next_token=Hook(lambda *x: None), set_parseinfo=Hook(lambda *x, **k: None), memoize=Hook(lambda key, res: res),
+                  semantics_call=Hook(lambda ri, node, pos=None: node), func_call=Hook(lambda ri: evaluated.append('body') or 'BODY'),
+                  clear_recursion_errors=Hook(lambda: None), goto=Hook(lambda p: None), save_result=Hook(lambda k, r: None),
+                  newexcept=Hook(lambda *x, **k: RuntimeError('seed')),
+                  config=Obj(left_recursion=True))
+        return me, states, evaluated
+
+    hit = Stub(RR, node='MEMO', newpos=8)
+    boom = RuntimeError('memoized failure')
+    fn = a.ct.lookup(ENGINE, 'rule_call')
+    for what, memo_value in (('a memoized result', hit), ('a memoized exception', boom)):
+        me, states, evaluated = engine(memo_value, {})
+        ret, raised = _run(ModelInterp(a), me, fn, [Obj(name='r', is_lrec=False), 'KEY'])
+        ops = [t[0] for t in states.trace]
+        ok = not ops and not evaluated and ((ret is hit and raised is None) if memo_value is hit else (raised is not None and ret is None))
+        rep.add({'fn': 'rule_call', 'memo_holds': what, 'returns': repr(ret), 'raised': raised, 'frame_ops': ops, 'body_evaluated': bool(evaluated), 'ok': ok})
+        if not ok:
+            rep.fail(fn.qualname, f'replay:rule_call:{what.split()[-1]}', f'rule_call() with {what} for the key: returns {ret!r}, raises {raised}, frame operations {ops}, '
+                     f'body evaluated: {bool(evaluated)}; required: the memo is returned / raised as it is and nothing else happens (a memoized '
+                     f'left-recursion guard that is not raised lets the rule re-enter itself without bound)', fn.loc)
+    fn = a.ct.lookup(ENGINE, 'recursive_call')
+    for what, stored in (('a result', hit), ('an exception', boom)):
+        me, states, evaluated = engine(None, {'KEY': stored})
+        me._attrs['rule_call'] = Hook(lambda ri, key: evaluated.append('rule_call') or hit)
+        ret, raised = _run(ModelInterp(a), me, fn, [Obj(name='r', is_lrec=True), 'KEY'])
+        ok = not evaluated and ((ret is hit and raised is None) if stored is hit else (raised is not None))
+        rep.add({'fn': 'recursive_call', '_results_holds': what, 'returns': repr(ret), 'raised': raised, 'evaluated': evaluated, 'ok': ok})
+        if not ok:
+            rep.fail(fn.qualname, f'replay:recursive_call:{what.split()[-1]}', f'recursive_call() with {what} in _results for the key: returns {ret!r}, raises {raised}, '
+                     f'evaluations {evaluated}; required: returned / raised at once (this is what ends the recursive invocation of a left-recursive rule)', fn.loc)
+    # no entry: the seed is stored before the first evaluation
+    results: dict = {}
+    me, states, evaluated = engine(None, results)
+    order: list = []
+
+    def rc(ri, key, results=results, order=order):
+        order.append(('eval', 'KEY' in results))
+        raise Raised('FailedParse', ast.Pass())
+    me._attrs['rule_call'] = Hook(rc)
+    ret, raised = _run(ModelInterp(a), me, fn, [Obj(name='r', is_lrec=True), 'KEY'])
+    ok = order[:1] == [('eval', True)]
+    rep.add({'fn': 'recursive_call', '_results_holds': 'nothing', 'seed_present_at_first_evaluation': order[:1], 'ok': ok})
+    if not ok:
+        rep.fail(fn.qualname, 'replay:seed-first', f'recursive_call() evaluates the rule before the seed is in _results ({order[:1]})', fn.loc)
+    return rep
